@@ -3,7 +3,11 @@
 import collections
 import concurrent.futures
 import os
+import shutil
+import sys
 import vlib
+sys.path.insert(0, os.path.dirname(os.path.abspath(__file__)))
+import c15_fields  # noqa: E402  (the generator of coq/generated/Src_c15_fields.v)
 
 
 MANIFEST = dict(
@@ -17,8 +21,32 @@ MANIFEST = dict(
           "empty tensors) and replayed on the implementation. hash_combine's sum, the header test, the element count and the "
           "version test are translated from source on every run; the extracted reader is compared "
           "with the real readers (ASan+UBSan) on every truncation offset and on single-byte corruptions of real objects, "
-          "including fitted linear / gradient boosting models (bit-identical predictions after re-read checked directly)."),
-    note=("Coq kernel; translator (6 kernels + field widths tied by correspondence only); extraction (ExtrOcamlBasic); harness + "
+          "including fitted linear / gradient boosting models (bit-identical predictions after re-read checked directly). "
+          "Extension (stateful readers, C15_Dest_*): nano::read(stream, destination) MUTATES an existing object; the formats are "
+          "re-written with their destination handling (string: early-exit test, resize keeps a prefix, per-character overwrite; "
+          "vector: resize KEEPS the old elements as destinations; tensor: header in locals, resize(dims) keeps the buffer iff the "
+          "element count is unchanged, payload over it, hash test; parameter/feature/configurable/factory objects: locals vs "
+          "members vs freshly cloned prototypes) as an executable rd returning the destination state AFTER the call, also on "
+          "failure. Proved for every format, every previous destination state and every stream: the stateful reader succeeds "
+          "exactly when the pure decoder does and the destination then IS the decoded value (C15_dest_independent, by induction "
+          "over the format; C15_dest_formats for all library formats with the early-exit and resize decisions TRANSLATED from "
+          "core/stream.h and tensor/stream.h on every run; C15_dest_roundtrip); the two seeded regressions C15/4 and C15/5 are "
+          "refuted variants with witnesses (C15_dest_early_exit_refuted, C15_dest_skip_resize_refuted); failure is reported but "
+          "not atomic (C15_dest_failure_not_atomic: half-written string and tensor, replayed on the library). Tie: every read of "
+          "a valid stream into a used destination (previous object, same element count in another shape, other factory type, "
+          "previously loaded fitted model) is re-run by the extracted read_into: the destination must serialise to exactly the "
+          "library's bytes; half-written strings/tensors after truncated reads are compared with rd. Extension (field sequences): "
+          "tools/checks/c15_fields.py lists for 22 write/read units (14 member / free function pairs + parameter_t::read/write split "
+          "by storage kind) the ::nano::write/read calls in source order with the wire "
+          "type of each argument (coq/generated/Src_c15_fields.v); C15_fields_as_assumed: the model's format terms are exactly "
+          "the interpretation of these sequences and every writer emits what its reader consumes."),
+    note=("Coq kernel; translator (9 kernels: hash, header test, element count, version test, string/vector early exit, tensor "
+          "resize condition); tools/checks/c15_fields.py (regex extractor of the field sequences; its C++-type -> wire-token table "
+          "is trusted, typedef chains are not followed except irange_t & co; the size/type-id fields of the "
+          "string/vector/unique_ptr overloads are tied by the correspondence only); functional extensionality (erase of the "
+          "destination-aware format terms = the pure format terms); failure states of scalars read through read_cast and of "
+          "feature_t::m_type / parameter type are modelled as in-place (documented imprecision, never compared); "
+          "extraction (ExtrOcamlBasic); harness + "
           "OCaml driver; little-endian host; allocation behaviour on corrupted size fields observed (plain build under a soft "
           "RLIMIT_AS), modelled as 'reject'; int64 overflow of corrupted dimension products not modelled (single-byte "
           "corruptions cannot reach it)."),
@@ -58,7 +86,21 @@ def run(tier, replay=None):
         except (OSError, ValueError):
             pass
     # 2. Coq: translated kernels + theorems (+ extraction target, built even if a proof breaks)
+    # extension (b): the field sequences of every write/read pair, re-read from the working tree
+    gen = os.path.join(vlib.COQ, "generated")
+    ftable, fnotes, ferr = {}, [], None
+    try:
+        ftable, fnotes = c15_fields.generate(gen)
+    except c15_fields.FieldError as ex:
+        ferr = str(ex)
+        main = os.path.join(vlib.ROOT, "coq", "generated", "Src_c15_fields.v")
+        if not os.path.exists(os.path.join(gen, "Src_c15_fields.v")) and os.path.exists(main):
+            os.makedirs(gen, exist_ok=True)
+            shutil.copy(main, os.path.join(gen, "Src_c15_fields.v"))   # last good table: the rest of the development still builds
     cres = vlib.coq_check("C15", targets=["theories/Extract_C15.vo", "theories/Properties_C15.vo"])
+    if ferr and cres["ok"]:
+        cres["ok"] = False
+        cres["broken"] = "field-extractor: " + ferr
     # 1./3. implementation runs: ASan+UBSan (round trips, every truncation, safe tensor corruptions) and plain build
     #       under a soft address-space limit (corruptions of every object, including absurd size fields)
     exe_a = vlib.build_harness("c15_stream", "asan", need_lib=True, extra="-O1")
@@ -74,7 +116,7 @@ def run(tier, replay=None):
         lines = [l for l in out.split("\n") if l]
         done = [l for l in lines if l.startswith("DONE ")]
         if rc != 0 or not done:
-            ops = [l for l in lines if l.split(" ", 1)[0] in ("OBJ", "FAIL", "COLLIDE", "EMPTYDIMS", "MODEL")]
+            ops = [l for l in lines if l.split(" ", 1)[0] in ("OBJ", "FAIL", "COLLIDE", "EMPTYDIMS", "MODEL", "REUSE", "HALF")]
             r.violation("crash-" + name,
                         {"kind": "implementation crash (sanitizer report / signal / timeout) while reading or writing a stream",
                          "variant": name, "exit": rc,
@@ -98,6 +140,7 @@ def run(tier, replay=None):
 
     # 3./4. correspondence with the extracted model
     mism, prop, checked, verdicts = [], [], 0, 0
+    dest = collections.Counter()   # stateful reader stage: reuse / half / hit_early / hit_skip
     drv = None
     try:
         drv = vlib.build_ocaml("c15_driver", "c15_model.ml", "c15_driver.ml")
@@ -106,7 +149,7 @@ def run(tier, replay=None):
             raise
     if drv:
         def _drive(lines):
-            keep = [l for l in lines if l.split(" ", 1)[0] in ("VERSION", "FTYPES", "IDS", "WLIDS", "OBJ")]
+            keep = [l for l in lines if l.split(" ", 1)[0] in ("VERSION", "FTYPES", "IDS", "WLIDS", "OBJ", "REUSE", "HALF")]
             return vlib.sh([drv], input="\n".join(keep) + "\n", timeout=3400)
         with concurrent.futures.ThreadPoolExecutor(2) as pool:
             outs = list(pool.map(_drive, [ls for _, ls in all_lines]))
@@ -121,6 +164,9 @@ def run(tier, replay=None):
                     ok = True
                     checked += int(l.split("checked=")[1].split()[0])
                     verdicts += int(l.split("verdicts=")[1].split()[0])
+                    for key in ("reuse", "half", "hit_early", "hit_skip"):
+                        if key + "=" in l:
+                            dest[key] += int(l.split(key + "=")[1].split()[0])
             if rc2 != 0 or not ok:
                 r.violation("driver-" + name, {"kind": "model driver failed", "out": mout[-2000:]}, no_input=True)
         for i, (name, l) in enumerate(mism[:3]):
@@ -149,13 +195,23 @@ def run(tier, replay=None):
         r.violation("emptydims", {"kind": "altered dimensions of an empty tensor accepted", "case": emptyd[0]},
                     fingerprint=KF_EMPTYDIMS)
 
+    # the witness of C15_dest_failure_not_atomic replayed on the implementation ("abcdef" <- size 4, "xy", end of stream)
+    wit = [l for _, ls in all_lines for l in ls if l.startswith("HALF string | 06000000616263646566 | 040000007879 |")]
+    for l in wit[:1]:
+        if not l.endswith("| R | 0400000078796364"):
+            r.violation("half-witness-replay", {"kind": "the half-written string proved for the model (C15_dest_failure_not_atomic) is not "
+                                                        "what the implementation leaves behind: model and implementation differ",
+                                                "case": l}, no_input=True)
+
     vlib.handle_coq_failure(r, cres)
     vlib.proof_coverage(r, cres, "make -C coq theories/Properties_C15.vo && coqc theories/Properties_C15.v (Print Assumptions)",
-                        ["tools/translate.py (6 kernels of hash.h, tensor/stream.h, dims.h, configurable.cpp; "
+                        ["tools/translate.py (9 kernels of hash.h, core/stream.h, tensor/stream.h, dims.h, configurable.cpp; "
                          "`<<6`, `>>2` and the hex constant of hash_combine normalised by the atom table)",
                          "extraction: ExtrOcamlBasic only; N/Z/positive extracted as inductives",
                          "ocaml/c15_driver.ml, harness/c15_stream.cpp + c15_models.h, g++ -fsanitize=address,undefined",
-                         "field order/widths of the formats: tied by the differential correspondence, not by the translator",
+                         "field order/widths of the formats: tools/checks/c15_fields.py (regex extractor + trusted C++ type -> wire "
+                         "token table) + theorem C15_fields_as_assumed + the differential correspondence",
+                         "functional extensionality (C15_dest_formats only)",
                          "little-endian host (x86-64)"])
     # measured coverage
     cov = r.coverage
@@ -203,6 +259,29 @@ def run(tier, replay=None):
     cov["model_checks"] = checked
     cov["model_verdict_comparisons"] = verdicts
     cov["mismatches"] = len(mism)
+    reuse_lines = [l for _, ls in all_lines for l in ls if l.startswith("REUSE ")]
+    half_lines = [l for _, ls in all_lines for l in ls if l.startswith("HALF ")]
+    rk = collections.Counter(l.split(" ", 2)[1].split(":")[0] + (":" + l.split(" ", 2)[1].split(":")[1] if l.split(" ", 2)[1].startswith("object:") else "")
+                             for l in reuse_lines)
+    cov["stateful_reader"] = {
+        "reuse_reads_compared_exactly": dest["reuse"], "by_kind": dict(rk),
+        "distinct_reuse_cases": len(set(vlib.sha(l) for l in reuse_lines)),
+        "half_written_states_compared": dest["half"], "distinct_half_cases": len(set(vlib.sha(l) for l in half_lines)),
+        "reuse_lines_on_which_the_refuted_early_exit_variant_differs": dest["hit_early"],
+        "reuse_lines_on_which_the_refuted_skip_resize_variant_differs": dest["hit_skip"],
+        "rule": "REUSE: a valid stream read into a destination that already holds another object (previous object of the kind, same "
+                "element count in another shape, empty shapes, same-kind objects with other strings, other factory types, previously "
+                "loaded fitted model); the extracted read_into must leave a state that serialises to exactly the library's bytes. "
+                "HALF: strict prefixes (header cut, payload cut inside / after an element; size field / characters cut) into used "
+                "strings and tensors; the half-written state must be the one rd computes (re-allocated tensor buffers: dims and the "
+                "arrived bytes only)",
+        "samples": [_short(l, 300) for l in reuse_lines[:2]] + [_short(l, 300) for l in half_lines[:1]]}
+    cov["field_sequences_from_source"] = {"units": {u: {"write": w, "read": r} for u, (w, r) in ftable.items()},
+                                          "extractor_notes": fnotes, "extractor_error": ferr,
+                                          "not_resolved_by_the_extractor": [
+                                              "typedef chains (TYPE_TOKENS of tools/checks/c15_fields.py is a trusted table)",
+                                              "string / vector / unique_ptr overloads of core/stream.h (size width u32/u64, type id): tied by "
+                                              "the correspondence and the translated early-exit kernels"]}
     cov["impl_direct_failures"] = len(impl_fail)
     cov["exhaustive"] = False
     cov["samples"] = [_short(l, 400) for _, l in objs[:2]] + [_short(l, 400) for _, l in objs if l.startswith(("OBJ param", "OBJ linear", "OBJ gboost"))][:3] + collide[:1]
@@ -217,7 +296,11 @@ def run(tier, replay=None):
         "payload corruptions at inner positions: rejected unless the hashes collide (proved iff; searched: no accepted case)",
         "dims corruptions that announce FEWER elements: rejected unless the prefix hash collides (searched)",
         "corruptions of non-tensor fields (sizes, counts, type ids, version): verdict equality model vs implementation only",
-        "no crash / out-of-bounds read on any truncated or corrupted stream (ASan+UBSan, plain build for absurd sizes)"]
+        "no crash / out-of-bounds read on any truncated or corrupted stream (ASan+UBSan, plain build for absurd sizes)",
+        "stale destination state beyond the serialised bytes (e.g. capacity, cached values not written by write()): invisible to "
+        "both the model and the REUSE oracle, which compare re-serialised bytes",
+        "the half-written state of vectors / features / parameters / models after a failed read (modelled by rd, not compared: a "
+        "reader that clear()s first is equally valid)"]
     r.assumptions = ["streams are read from memory (std::istringstream); I/O errors of the underlying device are out of scope",
                      "an exception or a failed stream state both count as 'reported failure'",
                      "allocation failure on absurd corrupted sizes (bad_alloc/length_error) is a reported failure; observed in a "
